@@ -130,10 +130,12 @@ def encode(kind, d, task):
             yield d
             raise InjectedFault('generator body failed after one item')
         return broken()
-    if special == 'mid' and kind in ('dir', 'continues'):
+    if special in ('mid', 'imid') and kind in ('dir', 'continues'):
         data = task.get_data_object()
         (data.dir / 'v.txt').write_text(d)
         (data.dir / 'progress').write_text('first')
+        if special == 'imid':
+            raise InjectedInterrupt('interrupted after writing part of the work directory')
         raise InjectedFault('failed after writing part of the work directory')
     if kind == 'continues':
         data = task.get_data_object()
@@ -167,7 +169,10 @@ def encode(kind, d, task):
         return [np.array(list(b[:4]), dtype='uint8'), np.array(list(b[4:]), dtype='uint8')]
     if kind == 'dir':
         data = task.get_data_object()
-        (data.dir / 'v.txt').write_text(d)
+        # rows are appended as they are produced: the run relies on starting from an EMPTY work directory (anything a
+        # dead earlier attempt left behind would end up in the published result)
+        with (data.dir / 'v.txt').open('a') as f:
+            f.write(d)
         (data.dir / 'sub').mkdir(exist_ok=True)
         (data.dir / 'sub' / 'w.bin').write_bytes(b'\x00\x01')
         if RT.dir_symlink:
@@ -181,6 +186,7 @@ def encode(kind, d, task):
     if kind == 'memory':
         obj = RT.classes['MemValue']()
         obj.tcv_digest = d
+        obj.tcv_len = int(d[:1], 16) % 2
         return obj
     raise ValueError(kind)
 
@@ -193,6 +199,7 @@ def _logging_gen(task, items):
     def gen():
         if emit:
             task.logger.info(f'tcv|{seq}|gen|{task.slugname}')
+            task.save_to_run_info(f'genrec|{seq}')
         for x in items:
             yield x
     return gen()
@@ -217,13 +224,20 @@ def compute(task, params, inputs):
         h(task, seq, d)
     n = rt.fail.get(slug, 0)
     if n:
-        rt.fail[slug] = n - 1
+        # a negative count arms interrupts (KeyboardInterrupt: a BaseException that is not an Exception)
+        rt.fail[slug] = n - 1 if n > 0 else n + 1
+        if n < 0:
+            raise InjectedInterrupt(f'injected interrupt in {slug}')
         raise InjectedFault(f'injected fault in {slug}')
     return encode(task.meta.get('tcv_kind', 'dict'), d, task)
 
 
 class InjectedFault(Exception):
     pass
+
+
+class InjectedInterrupt(KeyboardInterrupt):
+    """What Ctrl-C / a notebook's "interrupt kernel" raises inside run: not an `Exception`."""
 
 
 def _is_task(t):
